@@ -392,6 +392,21 @@ func TestEngineGenesis(t *testing.T) {
 			}
 		}
 		p.Count(fmt.Sprintf("epoch:contracts=%d", len(bc)))
+		// ---- the export for a restart at height zero: staking and distribution are rewound by the SDK's preparation, the
+		// custom modules' state is not — their sections must be those of the ordinary export (current base fee included)
+		{
+			zero, err := app.ExportAppStateAndValidators(true, nil, nil)
+			require.NoError(t, err)
+			var g0, g1 map[string]json.RawMessage
+			require.NoError(t, json.Unmarshal(zero.AppState, &g0))
+			require.NoError(t, json.Unmarshal(exported.AppState, &g1))
+			for _, mod := range []string{"evm", "feemarket", "cpc", "vauth"} {
+				if !bytes.Equal(g0[mod], g1[mod]) {
+					p.Oracle("C18-zero-height-export", "module %s: the export for height zero differs from the export of the same state: %.300s  vs  %.300s", mod, g0[mod], g1[mod])
+				}
+			}
+			p.Count("zero-height-export")
+		}
 		c.s.Cleanup()
 	}
 }
